@@ -117,6 +117,9 @@ def cases(draw, tier):
             "mode": draw(st.sampled_from(MODES)),
             "fmt": draw(st.sampled_from(FORMATS)),
             "sysinfo": draw(st.booleans()),
+            "index": draw(st.sampled_from(["default", "default", "permuted",
+                                           "gaps", "dates", "labels"])),
+            "iperm": draw(st.permutations(list(range(nrow)))),
             "stem": draw(st.sampled_from(["x", "data_1", "a.b", "File-2"]))}
 
 
@@ -129,7 +132,20 @@ def build_frame(case):
             d[name] = np.array(c["values"], dtype=np.int64)
         else:
             d[name] = list(c["values"])
-    return pd.DataFrame(d, columns=case["names"])
+    df = pd.DataFrame(d, columns=case["names"])
+    # the frame's own index is not written (write_index=False) and must not
+    # matter: sorted / filtered / dated / labelled frames
+    kind = case.get("index", "default")
+    n = len(df)
+    if kind == "permuted":
+        df.index = list(case["iperm"])
+    elif kind == "gaps":
+        df.index = [3 * i + 1 for i in range(n)]
+    elif kind == "dates":
+        df.index = pd.date_range("2001-01-01", periods=n)
+    elif kind == "labels":
+        df.index = [f"r{i}" for i in range(n)]
+    return df
 
 
 def float_tol(fmt, v):
@@ -169,7 +185,8 @@ def run(case, df, tmp):
     src = tmp / "script.py"
     src.write_text("# source\n")
     kw = dict(float_format=case["fmt"], write_sys_info=case["sysinfo"])
-    labels = [f"mode:{mode}", f"fmt:{case['fmt']}"]
+    labels = [f"mode:{mode}", f"fmt:{case['fmt']}",
+              f"index:{case.get('index', 'default')}"]
     comment = dict(case["comment"])
     if mode == "archive":
         zpath = tmp / "arch.zip"
